@@ -54,6 +54,8 @@ type B struct {
 	handshakeFail int    // cut this many upcoming handshakes instead of answering
 	refuse        map[int]bool
 	refusedOn     map[int]int // label -> generation on which its resume was refused
+	holdClose     map[int]bool // labels whose close responses are withheld until ReleaseClose
+	heldCloses    map[int][]func()
 	noAnswer      map[string]bool // kinds never answered (pending calls / metadata)
 	DialDelay     atomic.Int64
 	DialRefuse    atomic.Int32 // refuse this many dials outright (no transport)
@@ -64,7 +66,7 @@ type B struct {
 
 func New() *B {
 	b := &B{streams: map[uuid.UUID]*streamInfo{}, byLabel: map[int]uuid.UUID{}, genOf: map[int]int{},
-		refuse: map[int]bool{}, refusedOn: map[int]int{}, noAnswer: map[string]bool{}, DialStarted: make(chan int, 256), nextAlias: 10}
+		refuse: map[int]bool{}, refusedOn: map[int]int{}, holdClose: map[int]bool{}, heldCloses: map[int][]func(){}, noAnswer: map[string]bool{}, DialStarted: make(chan int, 256), nextAlias: 10}
 	b.Broker = broker.New(b.handle)
 	b.Broker.OnDial = func(idx int, c transport.DialConfig) error {
 		select {
@@ -289,7 +291,7 @@ func (b *B) handle(s *broker.Session, m message.Message) {
 			s.Link.Sever(memtr.Loud)
 			return
 		}
-		s.Send(&message.UpstreamCloseResponse{RequestID: v.RequestID, ResultCode: ok})
+		b.answerClose(label, func() { s.Send(&message.UpstreamCloseResponse{RequestID: v.RequestID, ResultCode: ok}) })
 	case *message.DownstreamCloseRequest:
 		b.mu.Lock()
 		label := -1
@@ -301,7 +303,7 @@ func (b *B) handle(s *broker.Session, m message.Message) {
 			s.Link.Sever(memtr.Loud)
 			return
 		}
-		s.Send(&message.DownstreamCloseResponse{RequestID: v.RequestID, ResultCode: ok})
+		b.answerClose(label, func() { s.Send(&message.DownstreamCloseResponse{RequestID: v.RequestID, ResultCode: ok}) })
 	case *message.UpstreamMetadata:
 		label := -1
 		if bt, isbt := v.Metadata.(*message.BaseTime); isbt {
@@ -403,4 +405,30 @@ func (b *B) RefusedOn(label int) (int, bool) {
 	defer b.mu.Unlock()
 	g, ok := b.refusedOn[label]
 	return g, ok
+}
+
+// HoldClose withholds the responses to the close requests of a stream until ReleaseClose.
+func (b *B) HoldClose(label int) { b.mu.Lock(); b.holdClose[label] = true; b.mu.Unlock() }
+
+// ReleaseClose answers every withheld close request of the stream, in arrival order.
+func (b *B) ReleaseClose(label int) {
+	b.mu.Lock()
+	delete(b.holdClose, label)
+	fs := b.heldCloses[label]
+	delete(b.heldCloses, label)
+	b.mu.Unlock()
+	for _, f := range fs {
+		f()
+	}
+}
+
+func (b *B) answerClose(label int, f func()) {
+	b.mu.Lock()
+	if b.holdClose[label] {
+		b.heldCloses[label] = append(b.heldCloses[label], f)
+		b.mu.Unlock()
+		return
+	}
+	b.mu.Unlock()
+	f()
 }
